@@ -12,6 +12,7 @@
 #include <signal.h>
 #include <unistd.h>
 #include <sys/mman.h>
+#include <sys/personality.h>
 #include <sys/wait.h>
 
 #include "imbh.h"
@@ -264,9 +265,78 @@ run_variant_forked(const imbh_variant *v)
  * expectations xout/xtag/... described in K1_FORMAT.md.
  */
 static const char *const builtin_cases[] = {
-/*@BUILTIN@*/
-        "id=1 name=sha1-abc cipher=3 hash=13 msg=616263 hlen=3 tag=20 "
-        "xtag=a9993e364706816aba3e25717850c26c9cd0d89d",
+        "id=1 name=cbc_hmac_sha1#1 cipher=1 dir=1 hash=1 order=1 "
+        "key=2b7e151628aed2a6abf7158809cf4f3c akey=2b7e151628aed2a6abf7158809cf4f3c "
+        "iv=000102030405060708090a0b0c0d0e0f aiv=- aad=- "
+        "msg=6bc1bee22e409f96e93d7e117393172aae2d8a571e03ac9c9eb76fac45af8e5130c81c46a35ce411"
+        "e5fbc1191a0a52eff69f2445df4f9b17ad2b417be66c3710707172 coff=0 clen=64 hoff=0 hlen=64 "
+        "tag=20 inplace=1 salign=1 dalign=16 xoff=0 "
+        "xout=7649abac8119b246cee98e9b12e9197d5086cb9b507219ee95db113a917678b273bed6b8e3c1743"
+        "b7116e69e222295163ff1caa1681fac09120eca307586e1a7 "
+        "xtag=df1e5adbe75aabae0b983430e8408bb4db223a89",
+        "id=2 name=gcm#13 cipher=5 dir=1 hash=9 order=1 "
+        "key=feffe9928665731c6d6a8f9467308308feffe9928665731c6d6a8f9467308308 akey=- "
+        "iv=cafebabefacedbaddecaf888 aiv=- aad=feedfacedeadbeeffeedfacedeadbeefabaddad2 "
+        "msg=d9313225f88406e5a55909c5aff5269a86a7a9531534f7da2e4c303d8a318a721c3c0c9595680953"
+        "2fcf0e2449a6b525b16aedf5aa0de657ba637b39 coff=0 clen=60 hoff=0 hlen=60 tag=4 inplace=1 "
+        "salign=63 dalign=7 xoff=0 "
+        "xout=522dc1f099567d07f47f37a32a84427d643a8cdcbfe5c0c97598a2bd2555d1aa8cb08e48590dbb3"
+        "da7b08b1056828838c5f61e6393ba7a0abcc9f662 xtag=76fc6ece",
+        "id=3 name=chacha20_poly1305#1 cipher=19 dir=1 hash=29 order=1 "
+        "key=808182838485868788898a8b8c8d8e8f909192939495969798999a9b9c9d9e9f akey=- "
+        "iv=070000004041424344454647 aiv=- aad=50515253c0c1c2c3c4c5c6c7 "
+        "msg=4c616469657320616e642047656e746c656d656e206f662074686520636c617373206f6620273939"
+        "3a204966204920636f756c64206f6666657220796f75206f6e6c79206f6e652074697020666f72207468"
+        "65206675747572652c2073756e73637265656e20776f756c642062652069742e coff=0 clen=114 hoff=0 "
+        "hlen=114 tag=16 inplace=1 salign=16 dalign=1 xoff=0 "
+        "xout=d31a8d34648e60db7b86afbc53ef7ec2a4aded51296e08fea9e2b5a736ee62d63dbea45e8ca9671"
+        "282fafb69da92728b1a71de0a9e060b2905d6a5b67ecd3b3692ddbd7f2d778b8c9803aee328091b58fab"
+        "324e4fad675945585808b4831d7bc3ff4def08e4b7a9de576d26586cec64b6116 "
+        "xtag=1ae10b594f09e26a7e902ecbd0600691",
+        "id=4 name=zuc_eea3_128#7 cipher=14 dir=1 hash=8 order=1 "
+        "key=ffffffffffffffffffffffffffffffff akey=- iv=ffffffffffffffffffffffffffffffff aiv=- "
+        "aad=- msg=000000000000000070717273747576 coff=0 clen=8 hoff=0 hlen=0 tag=0 inplace=1 "
+        "salign=16 dalign=1 xoff=0 xout=0657cfa07096398b",
+        "id=5 name=des3#1 cipher=10 dir=1 hash=8 order=1 "
+        "key=000102030405060708090a0b0c0d0e0f0001020304050607 akey=- iv=0001020304050607 aiv=- "
+        "aad=- msg=0000000000000000 coff=0 clen=8 hoff=0 hlen=0 tag=0 inplace=0 salign=33 "
+        "dalign=7 xoff=0 xout=df0b6c9c31cd0ce4",
+        "id=6 name=sha512#5 cipher=3 dir=1 hash=17 order=1 key=- akey=- iv=- aiv=- aad=- "
+        "msg=616263 coff=0 clen=0 hoff=0 hlen=3 tag=64 inplace=0 salign=7 dalign=1 "
+        "xtag=ddaf35a193617abacc417349ae20413112e6fa4e89a97ea20a9eeee64b55d39a2192992a274fc1a"
+        "836ba3c23a3feebbd454d4423643ce80e2a9ac94fa54ca49f",
+        "id=7 name=crc32_ethernet_fcs#15 cipher=3 dir=1 hash=34 order=1 key=- akey=- iv=- aiv=- "
+        "aad=- msg=43e2d5538fcb64d030fdfb29d37a557071 coff=0 clen=0 hoff=0 hlen=15 tag=4 "
+        "inplace=1 salign=1 dalign=16 xtag=b49cc4dc",
+        "id=8 name=cmac_128#9 cipher=3 dir=1 hash=12 order=1 key=- "
+        "akey=2b7e151628aed2a6abf7158809cf4f3c iv=- aiv=- aad=- "
+        "msg=e0e1e2e3e4e5e6e7e8e9eaebecedeeeff0f1f2f3f4f5f6f7f8f9fafbfcfdfeff coff=0 clen=0 "
+        "hoff=32 hlen=0 tag=12 inplace=1 salign=16 dalign=33 xtag=bb1d6929e95937287fa37d12",
+        "id=9 name=ccm_128#29 cipher=9 dir=1 hash=11 order=2 key=404142434445464748494a4b4c4d4e4f "
+        "akey=- iv=10111213141516 aiv=- aad=0001020304050607 "
+        "msg=e0e1e2e3e4e5e6e7e8e9eaebecedeeeff0f1f2f3f4f5f6f7f8f9fafbfcfdfeff20212223 coff=32 "
+        "clen=4 hoff=32 hlen=4 tag=6 inplace=1 salign=16 dalign=1 xoff=32 xout=7162015b "
+        "xtag=b0c95e58036e",
+        "id=10 name=docsis_crc#4 cipher=4 dir=1 hash=21 order=2 "
+        "key=00000000aabbccddeeff001122334455 akey=- iv=11111111111111111111111111111111 aiv=- "
+        "aad=- msg=0000000000000102030405060605040302010800aaaaaaaaaaaaaaaaaaaaaaffffffff coff=18 "
+        "clen=17 hoff=6 hlen=25 tag=4 inplace=1 salign=0 dalign=0 xoff=0 "
+        "xout=000000000000010203040506060504030201926ac2dcee3b31ec03de95335efe473e22 "
+        "xtag=3f15e1e8",
+        "id=11 name=pon#2 cipher=11 dir=1 hash=19 order=2 key=112233445566778899aabbccddeeff00 "
+        "akey=- iv=00000000000000040000000000000004 aiv=- aad=- "
+        "msg=00402711000029c3010203040506010101010101ffeb56fb coff=8 clen=16 hoff=0 hlen=24 tag=8 "
+        "inplace=1 salign=7 dalign=33 xoff=0 "
+        "xout=004027110000293cc76282caf66ff5edb7901e02ea38a178 xtag=6ce5c670",
+        "id=12 name=snow3g_f8_bitoff#3 cipher=15 dir=1 hash=8 order=1 "
+        "key=5acb1d644c0d51204ea5f1451010d852 akey=- iv=fa556b261c000000fa556b261c000000 aiv=- "
+        "aad=- msg=015b38883f12167188af493a84280fd07071 coff=7 clen=120 hoff=0 hlen=0 tag=0 "
+        "inplace=0 salign=7 dalign=1 xoff=0 xout=01741e626006698ad6a54e92f975808c xbitoff=7 "
+        "xbits=120",
+        "id=13 name=kasumi_f9#1 cipher=3 dir=1 hash=23 order=1 key=- "
+        "akey=2bd6459f82c5b300952c49104881ff48 iv=- aiv=- aad=- "
+        "msg=38a6f05605d2ec496b227737296f393c8079353edc87e2e805d2ec49a4f2d8e2 coff=0 clen=0 "
+        "hoff=0 hlen=32 tag=4 inplace=1 salign=16 dalign=33 xtag=f63bd72c",
 };
 
 struct st_state {
@@ -274,6 +344,7 @@ struct st_state {
         int nvar;
         int pass;     /* 0: record and check vectors, 1: compare with recorded */
         int *fails;   /* per item */
+        int *bfails;  /* per item: batched run differs from the single run */
         int *ran;     /* per item: number of results that were not skipped */
         int vidx;
 };
@@ -319,9 +390,21 @@ emit_selftest(const imbh_run *r, const imbh_variant *v, const int ep, const size
         const char *body = strstr(s.s, " status=");
 
         body = body ? body + 1 : s.s;
+        if (it->xloose) { /* keep only the defined part of the tag */
+                char *t = strstr(s.s, " tag=");
+
+                if (t != NULL && strlen(t + 5) > 2 * it->xtag.n) {
+                        char *rest = strchr(t + 5, ' ');
+
+                        memmove(t + 5 + 2 * it->xtag.n, rest, strlen(rest) + 1);
+                }
+        }
         if (g_st.pass == 1) {
-                if (*slot == NULL || strcmp(*slot, body) != 0)
-                        st_fail(idx, v, ep, "batched run differs from single run");
+                if (*slot == NULL || strcmp(*slot, body) != 0) {
+                        printf("  DIFF id=%ld %s var=%s ep=%d: batched run differs from single run\n",
+                               it->id, it->name, v->name, ep);
+                        g_st.bfails[idx]++;
+                }
                 free(s.s);
                 return;
         }
@@ -356,7 +439,7 @@ emit_selftest(const imbh_run *r, const imbh_variant *v, const int ep, const size
 static int
 selftest(const imbh_variant *vars, const int nvar)
 {
-        int bad = 0, total = 0;
+        int bad = 0, total = 0, bbad = 0;
 
         for (size_t i = 0; i < IMB_DIM(builtin_cases); i++)
                 add_item(builtin_cases[i]);
@@ -367,6 +450,7 @@ selftest(const imbh_variant *vars, const int nvar)
         g_st.line = calloc(g_nitems, sizeof(g_st.line[0]));
         g_st.fails = calloc(g_nitems, sizeof(int));
         g_st.ran = calloc(g_nitems, sizeof(int));
+        g_st.bfails = calloc(g_nitems, sizeof(int));
         for (size_t i = 0; i < g_nitems; i++)
                 g_st.line[i] = calloc((size_t) nvar * IMBH_NUM_EPS, sizeof(char *));
         g_opt.neps = IMBH_NUM_EPS;
@@ -406,11 +490,15 @@ selftest(const imbh_variant *vars, const int nvar)
                 printf("%s id=%ld %s (%d results)\n", g_st.fails[i] ? "FAIL" : "PASS",
                        g_items[i].id, g_items[i].name, g_st.ran[i]);
                 bad += g_st.fails[i] != 0;
+                bbad += g_st.bfails[i] != 0;
                 total += g_st.ran[i];
         }
         printf("SELFTEST %s: %zu cases, %d variants, %d results, %d failing cases\n",
                bad ? "FAIL" : "PASS", g_nitems, nvar, total, bad);
-        return bad != 0;
+        /* same items again, 16 per batch, so that jobs really share multi-buffer lanes */
+        printf("LANE-SHARING %s: %d cases change their result when batched with other jobs\n",
+               bbad ? "FAIL" : "PASS", bbad);
+        return (bad != 0) | ((bbad != 0) << 1);
 }
 
 /* ------------------------------------------------------------------------- */
@@ -483,10 +571,31 @@ variant_selected(const imbh_variant *v)
         return 0;
 }
 
+/*
+ * Some library outputs are left-over register contents (see K1_FORMAT.md,
+ * "undefined output bytes"); without address space randomisation they at
+ * least repeat from run to run.
+ */
+static void
+disable_aslr(char **argv)
+{
+        const int cur = personality(0xffffffff);
+
+        if (cur == -1 || (cur & ADDR_NO_RANDOMIZE) || getenv("K1_ALGO_NO_REEXEC") != NULL)
+                return;
+        if (personality((unsigned long) cur | ADDR_NO_RANDOMIZE) == -1)
+                return;
+        setenv("K1_ALGO_NO_REEXEC", "1", 1);
+        execv("/proc/self/exe", argv);
+        /* exec failed: carry on with randomisation */
+}
+
 int
 main(int argc, char **argv)
 {
         imbh_variant vars[IMBH_MAX_VARIANTS];
+
+        disable_aslr(argv);
 
         g_opt.batch = 1;
         strcpy(g_opt.variants, "all");
